@@ -30,7 +30,50 @@ import sys
 from . import core
 from .core import MachineryError
 
-SEEDS = [0, 1, 2, 7]
+BASE_SEEDS = [0, 1, 2, 7]
+MAX_SEEDS = 8
+# groups of same-kind names whose declaration order is observable in some fragment: the hash seeds are
+# chosen so that a set of each group iterates in different orders (every member last / first under some seed)
+ORDER_GROUPS = [["base", "theme"], ["alpha", "omega"], ["zeta", "kappa", "mu"], ["zed", "alpha2", "mid"],
+                ["zz", "aa", "mm"], ["bz", "ba", "bm"], ["pa", "a", "zq", "bq"]]
+_ORDER_PROBE = ("import json,sys\ngs=json.loads(sys.argv[1])\nout=[]\nfor g in gs:\n s=set()\n for n in g: s.add(n)\n out.append(list(s))\n"
+                "print(json.dumps(out))")
+
+
+def choose_seeds(run):
+    """BASE_SEEDS plus further PYTHONHASHSEED values so that every ORDER_GROUP is iterated (as a set built in
+    source order, the way the code generator builds its sets) with each member last and each member first."""
+    def orders(seed):
+        env = dict(os.environ)
+        env["PYTHONHASHSEED"] = str(seed)
+        p = subprocess.run([sys.executable, "-c", _ORDER_PROBE, json.dumps(ORDER_GROUPS)], env=env, capture_output=True, text=True, timeout=60)
+        if p.returncode:
+            raise MachineryError("hash order probe failed: " + p.stderr[-300:])
+        return json.loads(p.stdout)
+    goals = set()
+    for gi, g in enumerate(ORDER_GROUPS):
+        for n in g:
+            goals.add((gi, "last", n))
+            goals.add((gi, "first", n))
+    cand = {}
+    for seed in BASE_SEEDS + [x for x in range(3, 48) if x not in BASE_SEEDS]:
+        o = orders(seed)
+        cand[seed] = {(gi, "last", lst[-1]) for gi, lst in enumerate(o)} | {(gi, "first", lst[0]) for gi, lst in enumerate(o)}
+    chosen = list(BASE_SEEDS)
+    met = set().union(*(cand[x] for x in chosen))
+    while len(chosen) < MAX_SEEDS and goals - met:
+        best = max((x for x in cand if x not in chosen), key=lambda x: (len((cand[x] - met) & goals), -x))
+        if not (cand[best] - met) & goals:
+            break
+        chosen.append(best)
+        met |= cand[best]
+    # vacuity: the importing-namespace groups must see every member last under some chosen seed
+    for gi in (0, 1, 2):
+        for n in ORDER_GROUPS[gi]:
+            if (gi, "last", n) not in met:
+                raise MachineryError("no hash seed among %s iterates %s with %s last" % (chosen, ORDER_GROUPS[gi], n))
+    run.extra["order_goals_unmet"] = sorted("%s:%s:%s" % (ORDER_GROUPS[g][0], k, n) for g, k, n in goals - met)
+    return chosen
 AUX = 500000        # trace ids of auxiliary traces (mako-render given a path with a directory)
 
 
@@ -275,7 +318,22 @@ FRAGS = {
     "include": ("<%include file=\"inc.html\" args=\"v=a\"/><%include file=\"inc.html\"/>|\n", []),
     "namespace": ("<%namespace name=\"ns\" file=\"ns.html\"/><%namespace file=\"ns.html\" import=\"nd2\"/>${ns.nd(a)}${nd2()}${ns.nd('{NA}')}|\n", []),
     "many": ("".join("${n%d}" % i for i in range(12)) + "<%def name=\"m()\">" + "".join("${n%d}" % i for i in (5, 3, 11, 0, 7)) + "</%def>${m()}|\n", []),
-    "page": ("<%page args=\"pa='p0', a=9\"/>${pa}${a}|\n", []),
+    "page": ("<%page args=\"pa='p0', a=9, zq=1, bq=2\"/>${pa}${a}${zq}${bq}|\n", []),
+    # ---- order-sensitive fragments: the order of same-kind declarations is observable
+    "ns_overlap_star": ("<%namespace name=\"base\" file=\"nsa.html\" import=\"*\"/><%namespace name=\"theme\" file=\"nsb.html\" import=\"*\"/>"
+                        "${lab()}${only_a()}${only_b()}${base.lab()}${theme.lab()}|\n", []),
+    "ns_overlap_named": ("<%namespace name=\"alpha\" file=\"nsb.html\" import=\"tag2, only_b2\"/><%namespace name=\"omega\" file=\"nsa.html\" import=\"tag2\"/>"
+                         "<%def name=\"sh2()\">${tag2()}</%def>${tag2()}${only_b2()}~~sh2~~${sh2()}~~/sh2~~|\n", [("sh2", {})]),
+    "ns_overlap_three": ("<%namespace name=\"zeta\" file=\"nsa.html\" import=\"tri\"/><%namespace name=\"kappa\" file=\"nsc.html\" import=\"*\"/>"
+                         "<%namespace name=\"mu\" file=\"nsb.html\" import=\"tri, tri_b\"/>${tri()}${tri_b()}${lab3()}|\n", []),
+    "multi_defs": ("<%def name=\"zed()\">Z</%def><%def name=\"alpha2()\">A${zed()}</%def><%def name=\"mid(x=1)\">M${alpha2()}${x}</%def>"
+                   "${mid()}${alpha2()}${zed()}~~mid~~${mid(0)}~~/mid~~|\n", [("mid", {"x": 0})]),
+    "dup_def": ("<%def name=\"dd()\">first</%def><%def name=\"dd()\">second</%def>${dd()}|\n", []),
+    "multi_modblocks": ("<%! W = 'first' %><%! W = W + '+second'; V = W + '!' %><%! W = W + '+third' %>${W}${V}|\n", []),
+    "multi_blocks": ("<%block name=\"bz\">z${a}</%block><%block name=\"ba\">a${b}</%block><%block name=\"bm\">m${n2}</%block>|\n", []),
+    "multi_nested": ("<%def name=\"host()\"><%def name=\"zz()\">z</%def><%def name=\"aa()\">a${zz()}</%def><%def name=\"mm()\">m${aa()}${n3}</%def>"
+                     "${mm()}${zz()}${n4}</%def>${host()}|\n", []),
+    "multi_filters": ("${t | h, u, trim}${t | u, h}${' <x> ' | trim, h}${' <x> ' | h, trim}|\n", []),
     "texttag": ("<%text>${not} % evaluated <%def></%text>%% lit\n## comment\n<%doc>doc</%doc>|\n", []),
     "capture": ("<%def name=\"cp(x)\">c${x}</%def><% got = capture(cp, a) %>${got.upper()}${capture(cp, x='{NA}')}|\n", []),
 }
@@ -284,6 +342,9 @@ SUPPORT = {
     "base.html": "BASE[<%block name=\"title\">bt</%block>|${self.body()}|<%block name=\"foot\">ft${a}</%block>]\n",
     "ns.html": "<%def name=\"nd(x)\">ND(${x})</%def><%def name=\"nd2()\">ND2</%def>",
     "inc.html": "<%page args=\"v=0\"/>INC(${v})${a}",
+    "nsa.html": "".join("<%%def name=\"%s()\">A.%s </%%def>" % (n, n) for n in ("lab", "only_a", "tag2", "tri")),
+    "nsb.html": "".join("<%%def name=\"%s()\">B.%s </%%def>" % (n, n) for n in ("lab", "only_b", "tag2", "only_b2", "tri", "tri_b")),
+    "nsc.html": "".join("<%%def name=\"%s()\">C.%s </%%def>" % (n, n) for n in ("tri", "lab3")),
 }
 # the page fragment changes what `a` means for the body: kept out of combinations with def-reference segments
 EXCLUSIVE = {"page"}
@@ -302,7 +363,7 @@ def make_corpus(run, n_random):
         comment = "" if encoding == "utf-8" else "## -*- coding: %s -*-\n" % encoding
         defs = [d for t in tags for d in FRAGS[t][1]]
         corpus.append({"id": len(corpus) + 1, "tags": list(tags), "inherit": inherit, "encoding": encoding, "text": comment + body,
-                       "refs": bool(inherit or {"include", "namespace"} & set(tags)),
+                       "refs": bool(inherit or {"include", "namespace", "ns_overlap_star", "ns_overlap_named", "ns_overlap_three"} & set(tags)),
                        "defs": defs, "marker": "TPL%03d" % (len(corpus) + 1)})
     encs = ["utf-8", "cp1251", "latin-1"]
     for i, t in enumerate(sorted(FRAGS)):               # unit templates: one per feature
@@ -341,7 +402,7 @@ def _d(v):
     return "type:" + type(v).__name__
 
 
-def realise(tpl, d, seed):
+def realise(tpl, d, seed, first):
     """All paths for one template inside this process.  Returns the event list (object ids local)."""
     import contextlib
     import importlib.util
@@ -480,7 +541,7 @@ def realise(tpl, d, seed):
     ev.append({"ev": "render", "t": n, "m": "cmdline", "key": "body|str", "dig": _d(r), "seed": seed, "path": "cmdline"})
     ev.append({"ev": "collect", "t": n})
     aux = []
-    if refs and seed == SEEDS[0]:
+    if refs and first:
         out2 = io.StringIO()
 
         def run_cmd2():
@@ -507,14 +568,14 @@ def child_main(argv):
     out = {"mako": os.path.dirname(os.path.abspath(mako.__file__)), "hashseed": os.environ.get("PYTHONHASHSEED"), "res": {}}
     for tpl in job["templates"]:
         d = job["dirs"][str(tpl["id"])]
-        ev, n, aux = realise(tpl, d, job["seed"])
+        ev, n, aux = realise(tpl, d, job["seed"], job["first"])
         out["res"][tpl["id"]] = {"events": ev, "nobj": n, "aux": aux}
     with open(argv[1], "w") as f:
         json.dump(out, f)
     return 0
 
 
-def run_seed(run, corpus, dirs, seed, nproc):
+def run_seed(run, corpus, dirs, seed, nproc, first):
     work = run.subdir("jobs")
     chunks = [corpus[k::nproc] for k in range(nproc)]
     procs = []
@@ -524,7 +585,7 @@ def run_seed(run, corpus, dirs, seed, nproc):
         jf = os.path.join(work, "s%d-%d.json" % (seed, k))
         of = os.path.join(work, "s%d-%d.out.json" % (seed, k))
         with open(jf, "w") as f:
-            json.dump({"seed": seed, "templates": ch, "dirs": {str(t["id"]): dirs[t["id"]] for t in ch}}, f)
+            json.dump({"seed": seed, "first": first, "templates": ch, "dirs": {str(t["id"]): dirs[t["id"]] for t in ch}}, f)
         env = dict(os.environ)
         env["PYTHONHASHSEED"] = str(seed)
         p = subprocess.Popen([sys.executable, "-m", "harness.c08", "child", jf, of], cwd=core.VERIF, env=env,
@@ -555,7 +616,7 @@ CHECK_DEADLOCK FALSE
 """
 
 
-def record_corpus(run, corpus, nproc):
+def record_corpus(run, corpus, nproc, seeds):
     root = run.subdir("corpus")
     dirs = {}
     for tpl in corpus:
@@ -574,8 +635,8 @@ def record_corpus(run, corpus, nproc):
     traces = {tpl["id"]: {"id": tpl["id"], "textdig": dig(tpl["text"]), "events": []} for tpl in corpus}
     counts = {tpl["id"]: 0 for tpl in corpus}
     aux = []
-    for si, seed in enumerate(SEEDS):
-        res = run_seed(run, corpus, dirs, seed, nproc)
+    for si, seed in enumerate(seeds):
+        res = run_seed(run, corpus, dirs, seed, nproc, si == 0)
         for tpl in corpus:
             r = res.get(tpl["id"])
             if r is None:
@@ -699,8 +760,9 @@ def check(run):
         raise MachineryError("no simulated behaviour contained a source query")
 
     # ------------------------------------------------------------------ 3. V: corpus on the eight paths x hash seeds
-    corpus = make_corpus(run, 70 if not thorough else 500)
-    traces = record_corpus(run, corpus, nproc)
+    corpus = make_corpus(run, 60 if not thorough else 500)
+    seeds = choose_seeds(run)
+    traces = record_corpus(run, corpus, nproc, seeds)
     by_id = {t["id"]: t for t in corpus}
     # negative controls: one corrupted digest, one deleted event
     ncs = []
@@ -760,7 +822,7 @@ def check(run):
     run.transitions += nev
     run.extra["corpus"] = len(corpus)
     run.extra["events_validated"] = nev
-    run.extra["hash_seeds"] = SEEDS
+    run.extra["hash_seeds"] = seeds
     run.sample({"direction": "V", "template": corpus[0]["text"], "events": traces[0]["events"][:8]})
     run.assumptions += [
         "in replayed histories (R) a new process is modelled inside one process by dropping every object and collecting; real fresh "
